@@ -1,15 +1,78 @@
 (* C20 - the Lambda extension asks for the next invocation only after flushing.
 
-   Model: Model/Lambda.v (LTS of manager start-up, heartbeat, telemetry server, forwarder, Lambda
-   platform + function around the flush coordinator's capacity-1 channel).  [run step init ls =
-   Some s] says that the label sequence [ls] is an execution; every theorem quantifies over all
-   of them.  Statements only; proofs are in Proofs/Lambda*.v. *)
-From Coq Require Import List.
+   Model: Model/Lambda.v - an LTS of manager start-up, heartbeat, telemetry server, forwarder,
+   Lambda platform + function around the flush coordinator's capacity-1 channel.
+   [run step init ls = Some s] says that the label sequence [ls] is an execution (any
+   interleaving of the actors, any number of invocations, any number of datapoints per invocation
+   accepted at any time, any upstream outcome and number of attempts per delivery, telemetry
+   batches with other record types around the runtimeDone records); every theorem below
+   quantifies over all of them.  A position in an execution is given by splitting it:
+   [ls = pre ++ l :: post] is "label l fires after pre".
+
+     H_Next k           the k-th GET /event/next leaves (it will be answered with invocation k)
+     R_Done n           the function of invocation n returned: the platform emits runtimeDone n
+     R_Data d           ingestion accepted datapoint d
+     F_Take j o data    the forwarder received the maps [data] drained by the flush that [o]
+                        asked for (OInit: the heartbeat's initial flush; OInv n: runtimeDone n)
+     F_PostEnd j out    postMetrics of that flush returned: sent, dropped after its retries, or
+                        not serialisable - the delivery attempt is finished
+     flush_finished o tr  :=  exists j d, In (F_Take j o d) tr /\
+                                          (d = [] \/ exists out, In (F_PostEnd j out) tr)
+
+   Statements only; proofs are in Proofs/Lambda.v (state invariant "one credit circulates",
+   start-up) and Proofs/LambdaHist.v (history invariant). *)
+From Coq Require Import List NArith.
 Import ListNotations.
-From GS Require Import Base.LTS Model.Lambda Proofs.Lambda.
+From GS Require Import Base.LTS Model.Lambda Proofs.Lambda Proofs.LambdaHist.
+
+(* Whenever the extension asks for invocation n+1 (n >= 1), the flush triggered by the
+   runtimeDone record of invocation n has been handed to the forwarder and its delivery attempt
+   has finished - with whatever outcome - or it carried no data. *)
+Theorem C20_next_after_delivery :
+  forall ls s pre post n,
+    run step init ls = Some s ->
+    ls = pre ++ H_Next (S (S n)) :: post ->
+    flush_finished (OInv (S n)) pre.
+Proof. exact next_after_delivery_thm. Qed.
+Print Assumptions C20_next_after_delivery.
+
+(* Every datapoint accepted before the function of invocation n returned is in the maps drained
+   by flush n, unless an earlier flush already took it. *)
+Theorem C20_data_covered :
+  forall ls s l1 l2 l3 n d j data,
+    run step init ls = Some s ->
+    ls = l1 ++ R_Done n :: l2 ++ F_Take j (OInv n) data :: l3 ->
+    In (R_Data d) l1 ->
+    In d data \/ exists j' o' data', In (F_Take j' o' data') (l1 ++ R_Done n :: l2) /\ In d data'.
+Proof. exact data_covered_thm. Qed.
+Print Assumptions C20_data_covered.
+
+(* The two together, i.e. the property as stated: when the extension asks for invocation n+1,
+   every datapoint accepted before runtimeDone n is in a flush whose delivery attempt is finished
+   (it reached the upstream server or was refused by it) - before the sandbox can be frozen. *)
+Theorem C20_frozen_data_delivered :
+  forall ls s l1 l2 post n d,
+    run step init ls = Some s ->
+    ls = (l1 ++ R_Done (S n) :: l2) ++ H_Next (S (S n)) :: post ->
+    In (R_Data d) l1 ->
+    exists j o data out,
+      In (F_Take j o data) (l1 ++ R_Done (S n) :: l2) /\ In d data /\
+      In (F_PostEnd j out) (l1 ++ R_Done (S n) :: l2).
+Proof. exact frozen_data_delivered_thm. Qed.
+Print Assumptions C20_frozen_data_delivered.
+
+(* No GET /next - neither the first nor any later one - before the heartbeat's initial flush was
+   taken by the forwarder and finished. *)
+Theorem C20_initial_flush :
+  forall ls s pre post k,
+    run step init ls = Some s ->
+    ls = pre ++ H_Next k :: post ->
+    flush_finished OInit pre.
+Proof. exact initial_flush_thm. Qed.
+Print Assumptions C20_initial_flush.
 
 (* A server error inside the start window (= before the heartbeat goroutine exists) is reported
-   to /init/error and the runtime is never asked for an event:  no GET /next occurs anywhere in
+   to /init/error and the runtime is never asked for an event: no GET /next occurs anywhere in
    the execution, the heartbeat is never started, and the manager either has posted InitError,
    or returned because the telemetry subscription failed, or is still subscribing, or sits in
    the window where InitError is its only enabled step. *)
